@@ -2,6 +2,7 @@
 // @id C02.add_surface
 // @engine B
 // @entry vfh_C02_add_surface
+// @shared_state_watch
 // @tier Q
 // @reach add_surface.done
 // @funcs Phreeqc::add_surface
@@ -12,6 +13,7 @@
 // @id C02.add_ss_assemblage
 // @engine B
 // @entry vfh_C02_add_ss
+// @shared_state_watch
 // @tier Q
 // @reach add_ss.done
 // @funcs Phreeqc::add_ss_assemblage
